@@ -149,7 +149,7 @@ pub fn judge(lit: &str, binary: bool, input: &[u8], spec: &Spec) -> (bool, Optio
 }
 
 pub fn run(tier: Tier, report: &mut Report, family_docs: &dyn Fn(&str) -> Vec<Doc>) {
-    let lits: Vec<&str> = tier.pick(vec!["u8", "u32", "usize"], crate::subjects::LITS.to_vec());
+    let lits: Vec<&str> = { let _ = tier; crate::subjects::LITS.to_vec() };
     for format in ["aag", "aig"] {
         let binary = format == "aig";
         let fam = family_docs(format);
